@@ -183,8 +183,11 @@ theorem safeIn_eq_sub (o n : Ty) : safeIn o n = sub o n :=
 theorem safeIn_sound (o n : Ty) (h : safeIn o n = true) : InCompat o n := by
   rw [safeIn_eq_sub] at h; exact sub_sound o n h
 
-/-- **Input positions (exact).** On well-formed type expressions the differ reports an input
-    type change as safe *exactly* when the new type accepts every value the old one did. -/
+/-- **Input positions (exact for `InCompat`, i.e. type expressions read WITHOUT list input coercion).** On well-formed
+    type expressions the differ reports an input type change as safe *exactly* when the new type accepts every value
+    the old one did, a single value NOT counting as a one-element list. With list coercion the predicate is sound but
+    conservative: `Int` → `[Int]` is called unsafe (`safeIn_sound_coercion`, `safeIn_not_exact_with_list_coercion`,
+    Props/C20_coercion.lean; `diff_schema` reports it BREAKING - and a variable `$v: Int` at that position does break). -/
 theorem safeIn_iff (o n : Ty) (wo : o.wf = true) (wn : n.wf = true) :
     safeIn o n = true ↔ InCompat o n := by
   rw [safeIn_eq_sub]
